@@ -14,7 +14,7 @@ import ast
 from ..gen import EXTRA, REPO, Kernel, Untranslatable, all_stmts, find_assign, register
 from ..pyexpr import ExprTr, emit_def, find_function, parse_file
 
-SH = ("DirectVerif.Model.Shapes",)
+SH = ("DirectVerif.Model.Shapes", "DirectVerif.Model.ShapesChan")
 U2 = "direct/nn/unet/unet_2d.py"
 U3 = "direct/nn/unet/unet_3d.py"
 MW = "direct/nn/mwcnn/mwcnn.py"
@@ -558,6 +558,130 @@ def forward_programs():
     return "\n".join(chunks), status
 
 
+# ---- channel programs (AST of `forward` interpreted on instantiated modules with channel-carrying tokens; c17_channels.py) --
+def channel_specs():
+    """[(lean name, fallback Lean term, thunk building (module, hooked modules, n tensor inputs, in_channels, state channels))]
+    — widths are pairwise different wherever the architecture allows, so that a swapped pair of widths shows"""
+    specs = []
+
+    def b(v):
+        return "true" if v else "false"
+
+    def unet_hooks(u):
+        return list(u.down_sample_layers) + [u.conv] + list(u.up_transpose_conv) + list(u.up_conv)
+
+    def add(name, fallback, build):
+        specs.append((name, fallback, build))
+
+    for cin, cout, F, L in [(2, 2, 2, 1), (3, 5, 2, 2), (2, 2, 3, 3), (4, 2, 2, 4)]:
+        def bu(cin=cin, cout=cout, F=F, L=L):
+            from direct.nn.unet.unet_2d import UnetModel2d
+            m = UnetModel2d(cin, cout, F, L, 0.0)
+            return m, unet_hooks(m), 1, cin, None
+        add(f"fwc_unet2d_{cin}_{cout}_{F}_L{L}", f"Shapes.unetC {cin} {cout} {F} {L}", bu)
+    for cin, cout, F, L in [(2, 2, 2, 2), (6, 2, 3, 1), (4, 4, 2, 4)]:
+        def bu(cin=cin, cout=cout, F=F, L=L):
+            from direct.nn.unet.unet_2d import NormUnetModel2d
+            m = NormUnetModel2d(cin, cout, F, L, 0.0)
+            return m, unet_hooks(m.unet2d) + [m.unet2d], 1, cin, None
+        add(f"fwc_normunet2d_{cin}_{cout}_{F}_L{L}", f"Shapes.normUnetC {cin} {cout} {F} {L}", bu)
+    for cin, cout, F, L in [(2, 2, 2, 1), (3, 2, 2, 2), (6, 2, 3, 3)]:
+        def bu(cin=cin, cout=cout, F=F, L=L):
+            from direct.nn.unet.unet_3d import UnetModel3d
+            m = UnetModel3d(cin, cout, F, L, 0.0)
+            return m, unet_hooks(m), 1, cin, None
+        add(f"fwc_unet3d_{cin}_{cout}_{F}_L{L}", f"Shapes.unetC {cin} {cout} {F} {L}", bu)
+    for cin, cout, F, L in [(2, 2, 2, 1), (6, 2, 3, 2)]:
+        def bu(cin=cin, cout=cout, F=F, L=L):
+            from direct.nn.unet.unet_3d import NormUnetModel3d
+            m = NormUnetModel3d(cin, cout, F, L, 0.0)
+            return m, unet_hooks(m.unet3d) + [m.unet3d], 1, cin, None
+        add(f"fwc_normunet3d_{cin}_{cout}_{F}_L{L}", f"Shapes.normUnetC {cin} {cout} {F} {L}", bu)
+    for bn, cin, F, S in [(False, 2, 2, 1), (False, 2, 3, 2), (False, 4, 2, 3), (True, 2, 2, 3), (False, 2, 2, 4), (True, 6, 3, 2),
+                          (False, 2, 2, 5)]:
+        def bu(bn=bn, cin=cin, F=F, S=S):
+            from direct.nn.mwcnn.mwcnn import MWCNN
+            m = MWCNN(cin, F, num_scales=S, batchnorm=bn)
+            return m, [m.DWT, m.IWT] + list(m.down) + list(m.up), 1, cin, None
+        add(f"fwc_mwcnn_{cin}_{F}_S{S}" + ("_bn" if bn else ""), f"Shapes.mwcnnC {b(bn)} {cin} {F} {S}", bu)
+    for c, e in [(4, True), (3, False)]:
+        def bu(c=c, e=e):
+            from direct.nn.didn.didn import DUB
+            m = DUB(c, c)
+            return m, ([ch for _n, ch in m.named_children()] if e else []), 1, c, None
+        add(f"fwc_dub_{c}_" + ("hooked" if e else "plain"), f"Shapes.dubC {c} {b(e)}", bu)
+    for cin, cout, c, nd, nc, skip in [(2, 2, 4, 1, 1, False), (2, 2, 4, 1, 2, True), (2, 2, 4, 2, 3, True), (2, 4, 3, 3, 2, True),
+                                      (3, 3, 2, 4, 1, True), (2, 2, 3, 3, 1, False)]:
+        def bu(cin=cin, cout=cout, c=c, nd=nd, nc=nc, skip=skip):
+            from direct.nn.didn.didn import DIDN
+            m = DIDN(cin, cout, hidden_channels=c, num_dubs=nd, num_convs_recon=nc, skip_connection=skip)
+            return m, [m.conv_in, m.down] + list(m.dubs) + [m.recon_block, m.recon_agg, m.conv, m.up2, m.conv_out], 1, cin, None
+        # the effective skip flag of the module is `in_channels == out_channels and skip_connection`
+        add(f"fwc_didn_{cin}_{cout}_{c}_{nd}_{nc}_{'skip' if skip else 'noskip'}",
+            f"Shapes.didnC {cin} {cout} {c} {nd} {nc} {b(skip and cin == cout)}", bu)
+    for cin, cout, h, bn, nb in [(2, 2, 4, True, 1), (2, 3, 4, True, 2), (3, 3, 5, False, 3), (2, 5, 3, True, 4)]:
+        def bu(cin=cin, cout=cout, h=h, bn=bn, nb=nb):
+            from direct.nn.resnet.resnet import ResNet
+            m = ResNet(hidden_channels=h, in_channels=cin, out_channels=cout, num_blocks=nb, batchnorm=bn)
+            return m, [m.conv_in, m.resblocks, m.conv_out], 1, cin, None
+        add(f"fwc_resnet_{cin}_{cout}_{h}_B{nb}" + ("" if bn else "_nobn"), f"Shapes.resnetC {cin} {cout} {h} {b(bn)} {nb - 1}", bu)
+    for cin, cout, h, bn, n in [(2, 2, 4, False, 1), (2, 3, 4, True, 2), (3, 2, 5, False, 3), (2, 2, 4, True, 4), (2, 3, 4, True, 1)]:
+        def bu(cin=cin, cout=cout, h=h, bn=bn, n=n):
+            from direct.nn.conv.conv import Conv2d
+            m = Conv2d(cin, cout, h, n_convs=n, batchnorm=bn)
+            return m, list(m.conv), 1, cin, None
+        add(f"fwc_conv_{cin}_{cout}_{h}_N{n}" + ("_bn" if bn else ""), f"Shapes.convNetC {cin} {cout} {h} {b(bn)} {n}", bu)
+    # Conv2dGRU: no hand-written channel program (the gates' element-wise algebra makes it long); the bridge checks that the
+    # program read from `forward` runs, leaves no register behind and shows the hidden / output widths at the hooks
+    for cin, h, cout, layers, dense, norm in [(4, 3, 2, 1, 0, False), (4, 3, 2, 2, 0, False), (4, 3, 2, 2, 1, False), (4, 5, 2, 3, 2, False),
+                                              (4, 3, 2, 3, 1, False), (4, 3, 2, 2, 1, True), (6, 4, 3, 4, 3, False)]:
+        def bu(cin=cin, h=h, cout=cout, layers=layers, dense=dense, norm=norm):
+            from direct.nn.recurrent.recurrent import Conv2dGRU, NormConv2dGRU
+            m = (NormConv2dGRU if norm else Conv2dGRU)(cin, h, cout, num_layers=layers, dense_connect=dense)
+            return m, list(getattr(m, "convgru", m).conv_blocks), 2, cin, h
+        add(f"fwc_gru_{cin}_{h}_{cout}_L{layers}_d{dense}" + ("_norm" if norm else ""),
+            f"Shapes.gruChanFallback {cin} {h} {cout} {layers}", bu)
+    return specs
+
+
+def channel_programs():
+    chunks, status = [], {}
+    try:
+        import warnings
+        warnings.filterwarnings("ignore")
+        import boot  # noqa: F401
+        import torch  # noqa: F401
+
+        from .c17_channels import trace_channels
+        ok = None
+    except Exception as e:  # noqa: BLE001
+        ok = f"cannot import the implementation: {type(e).__name__}: {e}"
+    for name, fallback, build in channel_specs():
+        try:
+            if ok is not None:
+                raise Untranslatable(ok)
+            try:
+                mod, hooks, nin, cin, sch = build()
+            except Untranslatable:
+                raise
+            except Exception as e:  # noqa: BLE001
+                raise Untranslatable(f"cannot instantiate: {type(e).__name__}: {e}")
+            mod.eval()
+            try:
+                ops = trace_channels(mod, cin, n_inputs=nin, hooked=hooks, state_channels=sch)
+            except Untranslatable:
+                raise
+            except Exception as e:  # noqa: BLE001
+                raise Untranslatable(f"interpreter error {type(e).__name__}: {e}")
+            chunks.append(f"/-- channel program of `{type(mod).__name__}.forward` interpreted on an instantiated module -/\n"
+                          f"def {name} : List Shapes.COp :=\n  [" + ", ".join(ops) + "]\n")
+            status[name] = "translated"
+        except Untranslatable as e:
+            chunks.append(f"/-- SKIPPED ({str(e)[:200]}) -/\ndef {name} : List Shapes.COp := {fallback}\n")
+            status[name] = f"skipped: {str(e)[:200]}"
+    return "\n".join(chunks), status
+
+
 def schedule_tables():
     """block schedules of the unrolled zoo models, read from the AST of each `forward` (c17_sched.py)"""
     chunks, status = [], {}
@@ -568,13 +692,14 @@ def schedule_tables():
 
         from props import zoo_common as Z
 
-        from .c17_sched import io_channels, scan_schedule
+        from .c17_sched import io_channels, scan_schedule_full
         entries = Z.recons() + Z.recons3d()
         err = None
     except Exception as e:  # noqa: BLE001
         entries, err = [], f"cannot import the implementation: {type(e).__name__}: {e}"
         status["sched_tables"] = "skipped: " + err
     perms = set()
+    pairs = set()
     dom_name = {0: ".image", 1: ".perCoil", 2: ".coilBatch"}
     for e in entries:
         name = "sched_" + Z.lean_ident(e.name)
@@ -586,10 +711,11 @@ def schedule_tables():
             if term is None or sch is None:
                 continue
             fallback = f"Shapes.Sched.blocks ({term[0]}) {term[1]}"
-            calls = scan_schedule(m, sch[0])
+            calls = scan_schedule_full(m, sch[0])
             cache = {}
             items = []
-            for mod, dom, perm in calls:
+            for mod, dom, perm, operm in calls:
+                pairs.add((e.name.split("/")[0], dom, tuple(perm) if perm is not None else (), tuple(operm) if operm is not None else ()))
                 if id(mod) not in cache:
                     cache[id(mod)] = io_channels(mod)
                 cin, cout = cache[id(mod)]
@@ -614,7 +740,12 @@ def schedule_tables():
                       "def sched_permutes : List (Nat × List Nat) :=\n  ["
                       + ", ".join(f"({d}, {list(p)})" for d, p in rows) + "]\n")
         status["sched_permutes"] = "translated"
+        chunks.append("/-- (family, domain, permute of the denoiser's argument, permute of its result) found across the zoo -/\n"
+                      "def sched_permute_pairs : List (String × Nat × List Nat × List Nat) :=\n  ["
+                      + ", ".join(f'("{f}", {d}, {list(p)}, {list(o)})' for f, d, p, o in sorted(pairs)) + "]\n")
+        status["sched_permute_pairs"] = "translated"
     else:
+        chunks.append("def sched_permute_pairs : List (String × Nat × List Nat × List Nat) := []\n")
         chunks.append("def sched_permutes : List (Nat × List Nat) := [(0, [0, 3, 1, 2]), (0, [0, 4, 1, 2, 3]), (1, [0, 1, 4, 2, 3])]\n")
     return "\n".join(chunks), status
 
@@ -623,9 +754,11 @@ def _extra_all():
     t1, s1 = _extra()
     t2, s2 = forward_programs()
     t3, s3 = schedule_tables()
+    t4, s4 = channel_programs()
     s1.update(s2)
     s1.update(s3)
-    return t1 + "\n" + t2 + "\n" + t3, s1
+    s1.update(s4)
+    return t1 + "\n" + t2 + "\n" + t4 + "\n" + t3, s1
 
 
 EXTRA["C17"] = _extra_all
